@@ -242,6 +242,8 @@ pub fn next_solution<'a>(sn: Rc<RefCell<SolutionNode<'a>>>)
 
                     let mut sn_ref = sn.borrow_mut();
                     if !sn_ref.more_solutions { return None; };
+                    // not() gives at most one solution, whether it succeeds or fails.
+                    sn_ref.more_solutions = false;
 
                     match &sn_ref.head_sn {
                         Some(head_sn) => {
